@@ -214,6 +214,10 @@ impl BlockMode for RecBm {
     fn many(&mut self, k: Kind, inp: &[u8], out: &mut [u8]) -> R {
         rec_call!(self, "many", [k.s()], inp, out, self.inner.many(k, inp, out), rs)
     }
+    fn many_closure(&mut self, mode: u8, buf: &mut [u8]) {
+        let e: [u8; 0] = [];
+        rec_call!(self, "many_closure", [mode], e, buf, self.inner.many_closure(mode, buf), unit_s)
+    }
     fn iv_state(&self) -> Vec<u8> {
         tick();
         let v = self.inner.iv_state();
@@ -334,6 +338,10 @@ impl Core for RecCore {
     fn write_blocks(&mut self, out: &mut [u8]) {
         let e: [u8; 0] = [];
         rec_call!(self, "write_blocks", [], e, out, self.inner.write_blocks(out), unit_s)
+    }
+    fn write_blocks_closure(&mut self, mode: u8, out: &mut [u8]) {
+        let e: [u8; 0] = [];
+        rec_call!(self, "write_blocks_closure", [mode], e, out, self.inner.write_blocks_closure(mode, out), unit_s)
     }
     fn partial(self: Box<Self>, k: Kind, inp: &[u8], out: &mut [u8]) -> R {
         tick();
@@ -754,6 +762,12 @@ pub fn replay(reg: &Registry, ops: &[Op]) -> Result<Vec<Op>, String> {
                     o2.out_post = out;
                     Obj::Bm(b)
                 }
+                "many_closure" => {
+                    let mode: u8 = a(0)?.parse().map_err(|_| "bad mode")?;
+                    b.many_closure(mode, &mut out);
+                    o2.out_post = out;
+                    Obj::Bm(b)
+                }
                 "iv_state" => {
                     o2.ret = hex(&b.iv_state());
                     Obj::Bm(b)
@@ -815,6 +829,12 @@ pub fn replay(reg: &Registry, ops: &[Op]) -> Result<Vec<Op>, String> {
                 }
                 "write_blocks" => {
                     c.write_blocks(&mut out);
+                    o2.out_post = out;
+                    Obj::Core(c)
+                }
+                "write_blocks_closure" => {
+                    let mode: u8 = a(0)?.parse().map_err(|_| "bad mode")?;
+                    c.write_blocks_closure(mode, &mut out);
                     o2.out_post = out;
                     Obj::Core(c)
                 }
